@@ -283,6 +283,11 @@ func genAwsSpecs(prop, tier string, rng *rand.Rand) []awsSpec {
 			}
 			// fleet errors alongside instances, ready only at the second poll
 			mk(func(g *SimASG, o *AwsOracle, s *awsSpec) { o.FleetErrors = 2; o.ReadyAt = 2; o.DeadlinePolls = 2; s.Tries = 2 })
+			// the status call itself fails before the instances are running: the wait goes on, nothing is given up
+			if n >= 1 && n <= 100 {
+				mk(func(g *SimASG, o *AwsOracle, s *awsSpec) { o.ReadyAt = 2; o.DeadlinePolls = 3; o.StatusFail = []int{1} })
+				mk(func(g *SimASG, o *AwsOracle, s *awsSpec) { o.ReadyAt = 0; o.DeadlinePolls = 2; o.StatusFail = []int{1, 2}; s.Tries = 1 })
+			}
 			// readiness timeout, with each counter value; failing terminate calls
 			for tries := 0; tries < 3; tries++ {
 				tries := tries
